@@ -1,4 +1,5 @@
 import DriverLib.Basic
+import DriverLib.Flag
 import QV.Model.States
 import QV.Model.Density
 open Lean Drv QV
@@ -139,8 +140,44 @@ def mixed (j : Json) : R Json := do
     ("vec_batch_re", fVecOut fun i => (vb i).1), ("vec_batch_im", fVecOut fun i => (vb i).2),
     ("batch_vec_re", fVecOut fun i => (bv i).1), ("batch_vec_im", fVecOut fun i => (bv i).2)]
 
+def formOut (f : Density.CallForm) : Json :=
+  .str (match f with | .matrix => "matrix" | .paired => "paired" | .diag => "diag")
+
+/-- op `c02.flagged`: `rho(rows, rows2 | None, expand)` with `expand` the OBJECT the caller passed (`Density.rhoFlagged`), plus the
+layouts `gamma` and `pi` choose for that object (`Density.gammaForm`, `Density.piForm`).
+in : n, h, a, am, ph, rows (B×n), rows2 (B×n | null = `vp=None`), expand (flag descriptor), values (bool: evaluate the elements)
+out: gamma_form, pi_form, rho_form ("matrix" | "paired" | "diag" | "none"), layout ("matrix" | "vector" | "none"), re, im -/
+def flagged (j : Json) : R Json := do
+  let n ← jNat (← fld j "n")
+  let h ← jNat (← fld j "h")
+  let a ← jNat (← fld j "a")
+  let am ← parsePRBM (← fld j "am") n h a
+  let ph ← parsePRBM (← fld j "ph") n h a
+  let rows ← parseRows (← fld j "rows") n
+  let expand ← parseFlag (← fld j "expand")
+  let vs := rowsFn rows
+  let vps : Option (Fin rows.size → Fin n → Float) ← match fldOpt j "rows2" with
+    | none => pure none
+    | some r2 => do
+      let rows2 ← parseRows r2 n
+      if rows2.size != rows.size then throw "c02.flagged: rows/rows2 must have the same batch size"
+      pure (some fun i => rows2[i.val]!)
+  let forms := [("gamma_form", formOut (Density.gammaForm expand)), ("pi_form", formOut (Density.piForm expand)),
+    ("rho_form", match Density.rhoForm expand vps.isNone with | some f => formOut f | none => .str "none")]
+  let values ← match fldOpt j "values" with
+    | some v => jBool v
+    | none => pure true
+  if !values then return Json.mkObj forms
+  match Density.rhoFlagged am ph expand vs vps with
+  | none => return Json.mkObj (forms ++ [("layout", .str "none")])
+  | some (.matrix m) =>
+    return Json.mkObj (forms ++ [("layout", .str "matrix"), ("re", fMatOut fun i j => (m i j).1), ("im", fMatOut fun i j => (m i j).2)])
+  | some (.vector p) =>
+    return Json.mkObj (forms ++ [("layout", .str "vector"), ("re", fVecOut fun i => (p i).1), ("im", fVecOut fun i => (p i).2)])
+
 def handle (op : String) (j : Json) : Option (R Json) :=
   match op with
+  | "c02.flagged" => some (flagged j)
   | "c02.rho_outcome" => some (rhoOutcome j)
   | "c02.mixed" => some (mixed j)
   | "c02.paired_batch" => some (pairedBatch j)
